@@ -1,15 +1,20 @@
 mod canon;
 mod mc;
 mod script;
+mod sim;
 mod store;
 
 fn main() {
     // panics are observations; keep stderr quiet
-    std::panic::set_hook(Box::new(|_| {}));
+    if std::env::var("VH_PANIC").is_err() {
+        std::panic::set_hook(Box::new(|_| {}));
+    }
     let args: Vec<String> = std::env::args().collect();
     match args.get(1).map(|s| s.as_str()) {
         Some("store") => store::run(),
         Some("mc") => mc::run(),
+        Some("sim") => sim::run(),
+        Some("draws") => sim::draws(args[2].parse().unwrap(), args[3].parse().unwrap()),
         _ => {
             eprintln!("usage: vh store|mc|sim|pred|py ...");
             std::process::exit(2);
